@@ -24,6 +24,10 @@ def truncNat (x : Float) : Nat := x.toUInt64.toNat
 def asianNAdj (t0 t tau : Float) (n : Nat) : Nat :=
   if t0 < 0 then truncNat (Float.ofNat n * t / tau + 0.5) + 1 else n
 
+def quads : List Float → List (QEDraw Float)
+  | a :: b :: c :: d :: rest => ⟨a, b, c, d⟩ :: quads rest
+  | _ => []
+
 def pairs : List Float → List (Float × Float)
   | a :: b :: rest => (a, b) :: pairs rest
   | _ => []
